@@ -175,7 +175,7 @@ LayoutMembers(prog, ms, i) == IF i > Len(ms) THEN <<>> ELSE <<LayoutOf(prog, ms[
 \* `|:T|`; where the two admissible alignments of word members disagree the docs do not fix the value (unconstrained)
 SizeOfValue(prog, ty) == LET l == LayoutOf(prog, ty)
                          IN IF Lay!SizeOfM(l, "declared") = Lay!SizeOfM(l, "members")
-                            THEN Val("usize", FromNat(Lay!SizeOfM(l, "declared"), 64)) ELSE UB
+                            THEN Val("usize", FromNat(Lay!SizeOfM(l, "declared"), 64)) ELSE UBw("size not fixed by the documentation")
 RECURSIVE UninitOf(_, _), UninitMembers(_, _, _), TypeAt(_, _, _), Conforms(_, _, _), Rep(_, _)
 Rep(x, n) == IF n = 0 THEN <<>> ELSE <<x>> \o Rep(x, n - 1)
 UninitOf(prog, ty) ==
@@ -328,9 +328,9 @@ Eval(prog, m, e) ==
       [] e.k = "un" -> LET a == Eval(prog, m, e.e) IN IF ~Alive(a) THEN Dead(a) ELSE R(a.m, UnOp(e.op, a.v))
       [] e.k = "as" -> LET a == Eval(prog, m, e.e) IN IF ~Alive(a) THEN Dead(a) ELSE R(a.m, CastTo(e.t, a.v))
       [] e.k = "arr" -> LET a == EvalAll(prog, m, e.es, 1)
-                        IN IF ~a.ok THEN R(a.m, UB) ELSE R(a.m, [t |-> "array", v |-> a.vs])
+                        IN IF ~a.ok THEN R(a.m, a.ub) ELSE R(a.m, [t |-> "array", v |-> a.vs])
       [] e.k = "st" -> LET a == Fields(prog, m, e.n, e.fs, 1, UninitMembers(prog, StructDecl(prog, e.n).ms, 1))
-                       IN IF ~a.ok THEN R(a.m, UB) ELSE R(a.m, [t |-> "struct", n |-> e.n, v |-> a.vs])
+                       IN IF ~a.ok THEN R(a.m, a.ub) ELSE R(a.m, [t |-> "struct", n |-> e.n, v |-> a.vs])
       [] e.k = "len" -> LET a == RefPlace(prog, m, AsRef(e))
                         IN IF ~Alive(a) THEN Dead(a)
                            ELSE LET bv == ReadPlace(a.m, FullDeref(a.m, a.v))
@@ -340,24 +340,24 @@ Eval(prog, m, e) ==
            LET depth == Len(m.frames)
                en == BindArgs(prog, [m EXCEPT !.next = @ + 1], prog.fns[FnIndex(prog, e.f)].params, e.args, 1, <<>>, m.next, {})
            IN IF en.m.status # "run" THEN R(en.m, UB)
-              ELSE IF ~en.ok THEN R(Stop(en.m, "ub"), UB)
+              ELSE IF ~en.ok THEN R(StopUB(en.m, en.ub), UB)
               ELSE IF depth >= MaxFrames THEN R(Stop(en.m, "fuel"), UB)
               ELSE LET fin == RunNested(prog, [en.m EXCEPT !.frames = Append(@,
                                    [id |-> m.next, f |-> FnIndex(prog, e.f), pc |-> 1, env |-> en.env, d |-> "", nested |-> TRUE,
                                     snap |-> EnvsOf(en.m.frames, 1), reach |-> Closure(en.m, en.seeds, {})])], depth)
                    IN IF fin.status # "run" THEN R(fin, UB) ELSE R(fin, fin.rv)
 EvalAll(prog, m, es, i) ==
-    IF i > Len(es) THEN [m |-> m, ok |-> TRUE, vs |-> <<>>]
+    IF i > Len(es) THEN [m |-> m, ok |-> TRUE, vs |-> <<>>, ub |-> UB]
     ELSE LET a == Eval(prog, m, es[i])
-         IN IF ~Alive(a) THEN [m |-> a.m, ok |-> FALSE, vs |-> <<>>]
+         IN IF ~Alive(a) THEN [m |-> a.m, ok |-> FALSE, vs |-> <<>>, ub |-> Dead(a).v]
             ELSE LET rest == EvalAll(prog, a.m, es, i + 1)
-                 IN [m |-> rest.m, ok |-> rest.ok, vs |-> <<a.v>> \o rest.vs]
+                 IN [m |-> rest.m, ok |-> rest.ok, vs |-> <<a.v>> \o rest.vs, ub |-> rest.ub]
 \* members of a structure literal in written order, stored at their declared position
 Fields(prog, m, n, fs, i, acc) ==
-    IF i > Len(fs) THEN [m |-> m, ok |-> TRUE, vs |-> acc]
+    IF i > Len(fs) THEN [m |-> m, ok |-> TRUE, vs |-> acc, ub |-> UB]
     ELSE LET a == Eval(prog, m, fs[i].e)
              j == MemberIndex(prog, n, fs[i].m)
-         IN IF ~Alive(a) \/ j = 0 THEN [m |-> a.m, ok |-> FALSE, vs |-> acc]
+         IN IF ~Alive(a) \/ j = 0 THEN [m |-> a.m, ok |-> FALSE, vs |-> acc, ub |-> Dead(a).v]
             ELSE Fields(prog, a.m, n, fs, i + 1, [acc EXCEPT ![j] = a.v])
 EvalCond(prog, m, c) ==
     LET a == Eval(prog, m, c.l)
@@ -369,26 +369,26 @@ BindArgs(prog, m, ps, args, i, env, fid, seeds) ==
     IF i > Len(ps) THEN [m |-> m, ok |-> TRUE, env |-> env, seeds |-> seeds]
     ELSE LET p == ps[i]
              a == args[i]
-             fail(mm) == [m |-> mm, ok |-> FALSE, env |-> env, seeds |-> seeds]
+             fail(mm, x) == [m |-> mm, ok |-> FALSE, env |-> env, seeds |-> seeds, ub |-> IF IsUB(x) THEN x ELSE UB]
          IN IF IsViewParam(prog, p.ty)
             THEN IF IsRefExpr(a) /\ AsRef(a).addr = 0
                  THEN \* a view of the caller's storage
                       LET s == RefPlace(prog, m, AsRef(a))
                           base == IF Alive(s) THEN FullDeref(s.m, s.v) ELSE UB
-                      IN IF ~Alive(s) THEN fail(s.m)
-                         ELSE IF ReadPlace(s.m, base).t \notin {"array", "struct"} THEN fail(s.m)
+                      IN IF ~Alive(s) THEN fail(s.m, s.v)
+                         ELSE IF ReadPlace(s.m, base).t \notin {"array", "struct"} THEN fail(s.m, ReadPlace(s.m, base))
                          ELSE BindArgs(prog, s.m, ps, args, i + 1,
                                        Append(env, Entry(p.x, [base EXCEPT !.ro = TRUE], [k |-> "view", e |-> p.ty], FALSE, fid, 0, 0)), fid, seeds)
                  ELSE \* a view of a temporary that lives as long as the call
                       LET r == Eval(prog, m, a)
                           tmp == "$" \o p.x
-                      IN IF ~Alive(r) THEN fail(r.m)
+                      IN IF ~Alive(r) THEN fail(r.m, r.v)
                          ELSE BindArgs(prog, r.m, ps, args, i + 1,
                                        env \o <<Entry(tmp, r.v, [k |-> "temp"], FALSE, fid, 0, 0),
                                                 Entry(p.x, Place(fid, tmp, fid, <<>>, TRUE), [k |-> "view", e |-> p.ty], FALSE, fid, 0, 0)>>,
                                        fid, seeds)
             ELSE LET r == Eval(prog, m, a)
-                 IN IF ~Alive(r) THEN fail(r.m)
+                 IN IF ~Alive(r) THEN fail(r.m, r.v)
                     ELSE BindArgs(prog, r.m, ps, args, i + 1, Append(env, Entry(p.x, r.v, p.ty, FALSE, fid, 0, 0)), fid,
                                   IF r.v.t = "ptr" /\ a.k = "ref" THEN seeds \cup {r.v} ELSE seeds)
 
@@ -481,7 +481,7 @@ MStep(prog, m) ==
                    LET g == FnIndex(prog, it.f)
                        en == BindArgs(prog, [m1 EXCEPT !.next = @ + 1], prog.fns[g].params, it.args, 1, <<>>, m1.next, {})
                    IN IF en.m.status # "run" THEN en.m
-                      ELSE IF ~en.ok THEN Stop(en.m, "ub")
+                      ELSE IF ~en.ok THEN StopUB(en.m, en.ub)
                       ELSE IF Len(m.frames) >= MaxFrames THEN Stop(en.m, "fuel")
                       ELSE [en.m EXCEPT !.frames = Append(@, [id |-> m1.next, f |-> g, pc |-> 1, env |-> en.env, d |-> it.d, nested |-> FALSE,
                                                             snap |-> EnvsOf(en.m.frames, 1), reach |-> Closure(en.m, en.seeds, {})])]
